@@ -60,6 +60,7 @@ type PathResult struct {
 	WitnessVals []string
 	Choices []int
 	TimerNondet bool
+	UFChoice    bool // the path chose an uninterpreted-function atom to be true: not realisable natively
 }
 
 type Exec struct {
@@ -99,6 +100,7 @@ type Exec struct {
 	protoExtraCap int
 	protoTags map[string]*ProtoTag
 	lastPanic string
+	lastBoth  bool
 	swallowedPanics []string
 	symObs []symObs
 	pubSeen map[int]bool
@@ -155,14 +157,22 @@ func (ex *Exec) newObject(v Value, desc string) *Object {
 // decide returns the decision at the current position: replayed from the prefix, or new.
 // alts is the number of alternatives; feas reports feasibility of alternative i (lazily).
 func (ex *Exec) decide(kind string, alts int, feas func(i int) bool) int {
+	// binary branch decisions are stored as d (only this side was feasible) or d+2 (both sides were)
+	binary := kind == "branch"
 	if ex.dpos < len(ex.prefix) {
 		d := ex.prefix[ex.dpos]
 		ex.dpos++
 		ex.taken = append(ex.taken, d)
+		ex.lastBoth = false
+		if binary && d >= 2 {
+			ex.lastBoth = true
+			d -= 2
+		}
 		return d
 	}
 	ex.res.DecisionKinds[kind]++
 	first := -1
+	var others []int
 	for i := 0; i < alts; i++ {
 		if !feas(i) {
 			continue
@@ -171,17 +181,27 @@ func (ex *Exec) decide(kind string, alts int, feas func(i int) bool) int {
 			first = i
 			continue
 		}
-		alt := make([]int, len(ex.taken)+1)
-		copy(alt, ex.taken)
-		alt[len(ex.taken)] = i
-		ex.altern = append(ex.altern, alt)
+		others = append(others, i)
 	}
 	if first < 0 {
 		panic(prunePath{"no feasible alternative at " + kind})
 	}
+	ex.lastBoth = len(others) > 0
+	enc := func(i int) int {
+		if binary && ex.lastBoth {
+			return i + 2
+		}
+		return i
+	}
+	for _, i := range others {
+		alt := make([]int, len(ex.taken)+1)
+		copy(alt, ex.taken)
+		alt[len(ex.taken)] = enc(i)
+		ex.altern = append(ex.altern, alt)
+	}
 	ex.dpos++
-	ex.prefix = append(ex.prefix, first)
-	ex.taken = append(ex.taken, first)
+	ex.prefix = append(ex.prefix, enc(first))
+	ex.taken = append(ex.taken, enc(first))
 	return first
 }
 
@@ -262,6 +282,18 @@ func (ex *Exec) branch(cv Value) bool {
 			}
 			return ex.feasible(ex.ts.Not(c))
 		})
+		if c.hasUF && ex.lastBoth {
+			// a free choice about an uninterpreted-function atom: when the atom is chosen TRUE (e.g. arbitrary
+			// bytes happen to be a valid signature) the path cannot be realised with the real function
+			atom, positive := c, true
+			if c.op == TNot {
+				atom, positive = c.args[0], false
+			}
+			_ = atom
+			if (d == 0) == positive {
+				ex.res.UFChoice = true
+			}
+		}
 		if d == 0 {
 			ex.addPC(c)
 			return true
